@@ -18,7 +18,7 @@ DOC_LINES = {
     "ragged": [(0, "S"), (4, "B"), (6, "C")],
 }
 
-SIG_TEXT = {"s0": [], "s1": ["p", "/", "x", "y=1"], "s2": ["*va", "k", "kd=2", "**kw"]}
+SIG_TEXT = {"s0": [], "s1": ["p", "/", "x", "y=1"], "s2": ["*va", "k", "kd=2", "**kw"], "s3": ["*", "kd=2", "k", "ko=3"]}
 
 OTHER_PY = "class OK:\n    pass\n\n\ndef og(u):\n    pass\n\n\nov = 3\n"
 
@@ -96,7 +96,7 @@ def render_main(case: dict, pkg: str) -> str:
             else:
                 raise ValueError(w)
         elif t == "import":
-            lines.append(f"{ind}import {pkg}.other")
+            lines.append(f"{ind}import {pkg}.other" + ("" if k["as"] == "-" else f" as {k['as']}"))
         elif t == "ref":
             lines.append(f"{ind}{k['n']} = {k['what']}")
         else:
